@@ -234,6 +234,16 @@ func runC11(tier string, seed int64, outdir string, replay string) error {
 			builderCases(s, randString(rr, 12))
 		}
 	}
+	// inputs that other parsers accept as something special (IP literals with zones, bracketed hosts,
+	// host:port, URLs, e-mail forms, percent escapes): a fast path keyed on "this parses as X" would show here
+	for _, sp := range []string{"fe80::1%eth0", "fe80::1%/../../x", "::1%\\..\\x", "fe80::1%25eth0", "::ffff:1.2.3.4", "1.2.3.4", "[::1]", "[::1]:443",
+		"[fe80::1%/../x]", "2001:db8::1", "0:0:0:0:0:0:0:1", "1.2.3.4:80", "example.com:443", "example.com.", "http://a/../b", "mailto:a@b/../c",
+		"a%2f..%2fb", "a%00b", "xn--bcher-kva.example", "*.example.com", "*", "..%", "%..%", "::%..", "::%../..", "fe80::%..%.."} {
+		safeCase(sp)
+		builderCases(sp, "example.com")
+		builderCases("https://acme.example/dir", sp)
+		builderCases(sp, sp)
+	}
 	// long inputs (host names up to 253 characters, long e-mail addresses, longer still): a length-dependent
 	// step would show here (every clause is length-independent in the model)
 	for i := 0; i < nRand/20+40; i++ {
